@@ -402,6 +402,30 @@ theorem hasC_false_of_not_mem {m : Msg} {c : Nat} (h : c ∉ m.map (·.cid)) : g
   intro e he hc
   exact h (List.mem_map.mpr ⟨e, he, by simpa using hc⟩)
 
+theorem blkC_addEntry (m : Msg) (a : MEnt) (c : Nat) :
+    blkC (addEntry m a) c = if c = a.cid then (blkC m c || a.ty == .block) else blkC m c := by
+  unfold blkC
+  rw [get_addEntry]
+  by_cases h : c = a.cid
+  · subst h
+    cases hg : get m a.cid with
+    | none => simp
+    | some e =>
+      simp only [↓reduceIte, merge]
+      cases he : e.ty <;> cases ha : a.ty <;> simp
+  · simp [h]
+
+theorem blkC_foldl (as : List MEnt) (m : Msg) (c : Nat) :
+    blkC (as.foldl addEntry m) c = (blkC m c || as.any (fun a => a.cid == c && a.ty == .block)) := by
+  induction as generalizing m with
+  | nil => simp
+  | cons a as ih =>
+    simp only [List.foldl_cons, ih, blkC_addEntry, List.any_cons]
+    by_cases h : c = a.cid
+    · simp [h, Bool.or_assoc]
+    · have : (a.cid == c) = false := by simpa using fun x => h x.symm
+      simp [h, this]
+
 end Msg
 
 /-! ### the receiving side -/
@@ -439,5 +463,35 @@ theorem has_recv {m : Msg} (hm : Msg.WF m) (w : WL) (c : Nat) :
       simp [this, has_recvOne]
     · have h2 : ¬ c = e.cid := fun x => h x.symm
       simp [h, has_recvOne, h2]
+
+
+theorem blk_recvOne (w : WL) (e : MEnt) (c : Nat) :
+    WL.blk (recvOne w e) c = if c = e.cid then (!e.cancel && (WL.blk w c || e.ty == .block)) else WL.blk w c := by
+  unfold recvOne
+  by_cases hc : e.cancel = true
+  · simp only [hc, ↓reduceIte, WL.blk_del]
+    by_cases h : c = e.cid <;> simp [h]
+  · have hc' : e.cancel = false := by simpa using hc
+    simp only [hc', Bool.false_eq_true, ↓reduceIte, WL.blk_add]
+    by_cases h : c = e.cid <;> simp [h]
+
+/-- the want type the peer holds after receiving a message (Wantlist.Add never downgrades) -/
+theorem blk_recv {m : Msg} (hm : Msg.WF m) (w : WL) (c : Nat) :
+    WL.blk (recv w m) c = if Msg.hasC m c then (!Msg.canc m c && (WL.blk w c || Msg.blkC m c)) else WL.blk w c := by
+  induction m generalizing w with
+  | nil => simp [recv, Msg.hasC]
+  | cons e m ih =>
+    unfold Msg.WF at hm
+    simp only [List.map_cons, List.nodup_cons] at hm
+    have ih' := ih hm.2 (recvOne w e)
+    simp only [recv, List.foldl_cons] at ih' ⊢
+    rw [ih']
+    simp only [Msg.hasC, Msg.canc, Msg.blkC, Msg.get_cons]
+    by_cases h : e.cid = c
+    · subst h
+      have : Msg.get m e.cid = none := Msg.hasC_false_of_not_mem hm.1
+      simp [this, blk_recvOne]
+    · have h2 : ¬ c = e.cid := fun x => h x.symm
+      simp [h, blk_recvOne, h2]
 
 end C35
